@@ -333,7 +333,16 @@ fn exec(t: &mut Tape, st: &mut Stats) -> Result<(), String> {
         None => c.resp.head.bytes().len(),
     };
     st.class(if c.hundred.is_some() { "server_sends_100" } else if c.resp.head.fields.is_empty() { "server_refuses_bare" } else { "server_refuses_with_fields" });
-    for p in 0..=hlen {
+    // a refusal that brings a body: the caller's read may well reach past the head into the body bytes (one read of a small
+    // response); such windows must decide the handshake exactly like the window that ends with the head
+    let stream_len = spec_for(&c, AwaitMode::Look).stream().len();
+    let mut ps: Vec<usize> = (0..=hlen).collect();
+    if c.hundred.is_none() && stream_len > hlen {
+        ps.extend((hlen + 1..=(hlen + 9).min(stream_len)).chain(std::iter::once(stream_len)));
+        ps.dedup();
+        st.class("window_past_the_refusal_head");
+    }
+    for p in ps {
         // how the window grows to p: 1..4 steps
         let nsteps = t.weighted(&[3, 2, 1, 1]) + 1;
         let mut steps: Vec<usize> = (0..nsteps - 1).map(|_| t.below(p + 1)).collect();
